@@ -5,7 +5,8 @@
 // middleware of the server counts the tools/list requests that reach it and sets `ttlMs` on their results.  A case is a
 // sequence of operations; every record carries the virtual clock (ms since the case began):
 //
-//	seq cfg K<sl|sf> pv<new|old> ps<pagesize>     server + handler + client, Connect           -> new<0|1> (cs.usesNewProtocol)
+//	seq cfg K<sl|sf> pv<new|old> ps<pagesize>     server + handler                              -> ok
+//	seq t<ms> connect                              client, Connect                               -> new<0|1> (cs.usesNewProtocol)
 //	seq t<ms> set t<name> p{ schema }              Server.AddTool (add, or re-register)          -> ok
 //	seq t<ms> del t<name>                          Server.RemoveTools                            -> ok
 //	seq t<ms> ttl <v>                              ttlMs of later tools/list results (0: untouched) -> ok
@@ -202,6 +203,8 @@ type pfqWorld struct {
 	notified int      // runs of the client's ToolListChangedHandler
 	seen     []string // arguments the tool handlers received
 	lastNote int
+	pv       string
+	sub      bool
 }
 
 func (w *pfqWorld) now() int64 { return time.Since(w.start).Milliseconds() }
@@ -317,9 +320,11 @@ func (w *pfqWorld) toolHandler(ctx context.Context, req *CallToolRequest) (*Call
 	return &CallToolResult{}, nil
 }
 
-// open: `cfg`.
-func (w *pfqWorld) open(kind, pv string, pageSize int, sub bool) (obs string, err error) {
+// open: `cfg` - the server and its handler.  connect: the client (tools registered before it connects are part of the
+// capabilities it discovers; a stateless server grants a list_changed subscription only if it has tools by then).
+func (w *pfqWorld) open(kind, pv string, pageSize int, sub bool) {
 	w.start = time.Now()
+	w.pv, w.sub = pv, sub
 	w.srv = NewServer(&Implementation{Name: "verif", Version: "1"}, &ServerOptions{PageSize: pageSize})
 	w.srv.AddReceivingMiddleware(func(next MethodHandler) MethodHandler {
 		return func(ctx context.Context, method string, req Request) (Result, error) {
@@ -338,8 +343,11 @@ func (w *pfqWorld) open(kind, pv string, pageSize int, sub bool) (obs string, er
 	})
 	w.handler = NewStreamableHTTPHandler(func(*http.Request) *Server { return w.srv }, &StreamableHTTPOptions{Stateless: kind == "Ksl"})
 	w.rt = &pfqRT{h: w.handler}
+}
+
+func (w *pfqWorld) connect() (obs string, err error) {
 	copts := &ClientOptions{}
-	if sub {
+	if w.sub {
 		copts.ToolListChangedHandler = func(context.Context, *ToolListChangedRequest) {
 			w.mu.Lock()
 			w.notified++
@@ -347,7 +355,7 @@ func (w *pfqWorld) open(kind, pv string, pageSize int, sub bool) (obs string, er
 		}
 	}
 	version := protocolVersion20260728
-	if pv == "pvold" {
+	if w.pv == "pvold" {
 		version = protocolVersion20251125
 	}
 	c := NewClient(&Implementation{Name: "c", Version: "1"}, copts)
@@ -544,16 +552,12 @@ func pfqRun(t *testing.T, out *verifOut, cs string, at string, lines []string, e
 				}
 				ps, _ := strconv.Atoi(strings.TrimPrefix(f[3], "ps"))
 				sub := len(f) > 4 && f[4] == "sub1"
-				obs, err := w.open(f[1], f[2], ps, sub)
-				if err != nil {
-					emit("seq "+strings.Join(f[:4], " "), "err:"+hxs(firstN(err.Error(), 60)), "seq-cfg")
-					return
-				}
+				w.open(f[1], f[2], ps, sub)
 				f[3] = fmt.Sprintf("ps%d", w.srv.opts.PageSize) // the effective page size (0 = the SDK's default)
-				emit("seq "+strings.Join(f[:4], " "), obs, "seq-cfg", "seq-"+f[1], "seq-"+f[2], "seq-"+f[3], "seq-sub"+pfB01(sub), "seq-"+obs)
+				emit("seq "+strings.Join(f[:4], " "), "ok", "seq-cfg", "seq-"+f[1], "seq-"+f[2], "seq-"+f[3], "seq-sub"+pfB01(sub))
 				continue
 			}
-			if w.cs == nil {
+			if w.srv == nil {
 				return
 			}
 			if strings.HasPrefix(f[0], "t") && len(f[0]) > 1 && f[0][1] >= '0' && f[0][1] <= '9' {
@@ -561,6 +565,17 @@ func pfqRun(t *testing.T, out *verifOut, cs string, at string, lines []string, e
 			}
 			if len(f) == 0 || f[0] == "notified" {
 				continue // an event, not an operation: re-observed
+			}
+			if w.cs == nil && (f[0] == "connect" || f[0] == "list" || f[0] == "look" || f[0] == "call") {
+				obs, err := w.connect()
+				if err != nil {
+					emit(fmt.Sprintf("seq t%d connect", w.now()), "err:"+hxs(firstN(err.Error(), 60)), "seq-connect")
+					return
+				}
+				emit(fmt.Sprintf("seq t%d connect", w.now()), obs, "seq-connect", "seq-"+obs)
+			}
+			if f[0] == "connect" {
+				continue
 			}
 			var op, obs string
 			var tags []string
@@ -692,8 +707,15 @@ func (g *pfGen) pfqGenerate() []string {
 	if g.chance(60) {
 		add("ttl " + g.pick(ttls))
 	}
+	early := g.chance(20) // the client connects to a server that has no tools yet
+	if early {
+		add("connect")
+	}
 	for i, n := 0, 1+g.rng.Intn(4); i < n; i++ {
 		setTool(pfqNames[g.rng.Intn(5)], schema())
+	}
+	if !early {
+		add("connect")
 	}
 	listAll := func() {
 		add("list c-")
